@@ -250,7 +250,11 @@ dotted = _dotted
 _PURE_BUILTINS = {"sorted": sorted, "min": min, "max": max, "sum": sum, "abs": abs, "bool": bool, "any": any, "all": all,
                   "range": lambda *a: tuple(range(*a)) if len(range(*a)) <= 5000 else (_ for _ in ()).throw(ValueError("range too long")),
                   "enumerate": lambda *a: tuple(enumerate(*a)), "zip": lambda *a: tuple(zip(*a)), "reversed": lambda a: tuple(reversed(a)),
-                  "divmod": divmod, "round": round, "ord": ord, "chr": chr, "repr": repr}
+                  "divmod": divmod, "round": round, "ord": ord, "chr": chr, "repr": repr,
+                  "itertools.chain": lambda *a: tuple(x for it in a for x in it), "chain": lambda *a: tuple(x for it in a for x in it),
+                  "re.escape": lambda s_: __import__("re").escape(s_), "hex": hex, "frozenset": frozenset}
+_PURE_FUNCS_BY_NAME = {"re.escape": lambda s_: __import__("re").escape(s_), "str": str, "chr": chr, "ord": ord, "int": int, "float": float,
+                       "len": len, "abs": abs, "str.lower": str.lower, "str.upper": str.upper, "hex": hex, "repr": repr}
 _PURE_METHODS = {"index", "count", "lower", "upper", "strip", "lstrip", "rstrip", "split", "rsplit", "join", "format", "replace",
                  "startswith", "endswith", "get", "keys", "values", "items", "find", "rfind", "partition", "rpartition", "title",
                  "capitalize", "zfill", "isdigit", "isalpha", "union", "intersection", "difference", "copy", "splitlines", "encode"}
@@ -711,6 +715,16 @@ class Program:
                     return all(plain(x) for x in v.values())
                 return True
 
+            # map(<pure function>, <folded iterable>)
+            if fn == "map" and len(node.args) == 2 and not node.keywords and _dotted(node.args[0]) in _PURE_FUNCS_BY_NAME:
+                it_ = ev(node.args[1])
+                if isinstance(it_, dict):
+                    it_ = tuple(it_)
+                if isinstance(it_, (tuple, list, str, frozenset)) and plain(it_):
+                    try:
+                        return tuple(_PURE_FUNCS_BY_NAME[_dotted(node.args[0])](x) for x in it_)
+                    except Exception as e_:  # noqa: BLE001
+                        return Unknown("map: %s" % e_, node)
             # pure builtins over folded values
             if fn in _PURE_BUILTINS and not node.keywords and args and all(plain(a) for a in args) \
                     and not any(isinstance(a, ast.Starred) for a in node.args):
